@@ -525,22 +525,29 @@ def _interpolation(chk, repo):
     # (the stack is sorted, highest first) that does not outrank (priority <= and key <=) starts the sub-stack.  Orderings only.
     gb = repo.func(LT, "Light.get_color_below")
     chk.analysed(gb)
-    from sa.cfg import canon_fact as _cf
-
-    def _conj(t):
-        parts = t.values if isinstance(t, ast.BoolOp) and isinstance(t.op, ast.And) else [t]
-        return {_cf(src(x), True) for x in parts}
-    ifs = [x for x in ast.walk(gb.node) if isinstance(x, ast.If)]
-    fast = [x for x in ifs if "self.stack[0]" in src(x.test)]
-    ok = len(fast) == 1 and _conj(fast[0].test) == {_cf("self.stack[0].key == key", True), _cf("self.stack[0].priority == priority", True)}
+    from sa.cfg import canon_fact as _cf, canon_set as _cs
+    from sa.helpers import inloop_guards as _ilg9, positive as _pos9
+    gcf = gb.cfg()
+    # decided on the guards that reach the statements (nested ifs, guard clauses and mirrored comparisons all give the same facts)
+    fast = [n for n in gcf.nodes if n.kind == "stmt" and isinstance(n.ast, ast.Return) and n.ast.value is not None
+            and any(isinstance(c, ast.Call) and call_attr(c) == "_get_color_and_fade" and c.args and src(c.args[0]) == "self.stack" for c in ast.walk(n.ast.value))]
+    want_f = {_cf("self.stack[0].key == key", True), _cf("self.stack[0].priority == priority", True)}
+    ok = len(fast) == 1
+    gf = set()
+    if ok:
+        gf = _pos9(set(_cs(gcf.guards_at(fast[0].id))))
+        ok = want_f <= gf and all(k == "self.stack" and v is True for k, v in gf - want_f)
     chk.ob("FADE-2", "get_color_below takes the top-of-stack fast path only for the entry itself (same key and same priority)", ok,
-           gb.where(fast[0] if fast else None), detail="fast path when %s" % (src(fast[0].test) if fast else "?"), construct=gb.ident,
-           text="colour-below fast path")
-    scans = [x for lp in ast.walk(gb.node) if isinstance(lp, ast.For) for x in lp.body if isinstance(x, ast.If)]
-    ok = len(scans) == 1 and _conj(scans[0].test) == {_cf("entry.priority <= priority", True), _cf("entry.key <= key", True)}
+           gb.where(fast[0].ast if fast else None), detail="fast path under %s" % sorted(gf), construct=gb.ident, text="colour-below fast path")
+    heads9 = [n for n in gcf.nodes if n.kind == "loop"]
+    cuts = [n for n in gcf.nodes if n.kind == "stmt" and isinstance(n.ast, ast.Assign) and src(n.ast.targets[0]) == "stack" and "self.stack[" in src(n.ast.value)]
+    ok = len(heads9) == 1 and len(cuts) == 1
+    gs = set()
+    if ok:
+        gs = _pos9(_ilg9(gcf, cuts[0].id, heads9[0].id))
+        ok = gs == {_cf("entry.priority <= priority", True), _cf("entry.key <= key", True)}
     chk.ob("FADE-2", "otherwise the sub-stack starts at the first entry with priority <= and key <= the given ones (the entry itself included)", ok,
-           gb.where(scans[0] if scans else None), detail="starts at %s" % (src(scans[0].test) if scans else "?"), construct=gb.ident,
-           text="colour-below scan")
+           gb.where(cuts[0].ast if cuts else None), detail="starts under %s" % sorted(gs), construct=gb.ident, text="colour-below scan")
     g = repo.func(LT, "Light._add_to_stack")
     chk.analysed(g)
     cfg = g.cfg()
@@ -1102,6 +1109,8 @@ def battery():
         M("fade start colour read after the old entry is gone", LT, "        if fade_ms:\n            dest_time = start_time + (fade_ms / 1000)\n            color_below = self.get_color_below(priority, key)\n        else:\n            dest_time = 0\n            color_below = None\n\n        if self.stack:\n            self._remove_from_stack_by_key(key)\n", "        if self.stack:\n            self._remove_from_stack_by_key(key)\n\n        if fade_ms:\n            dest_time = start_time + (fade_ms / 1000)\n            color_below = self.get_color_below(priority, key)\n        else:\n            dest_time = 0\n            color_below = None\n", "FADE-2"),
         M("colour-below fast path ignores the priority", LT, "        if self.stack[0].key == key and self.stack[0].priority == priority:", "        if self.stack[0].key == key:", "FADE-2"),
         M("colour-below scan skips the entry's own key", LT, "            if entry.priority <= priority and entry.key <= key:", "            if entry.priority <= priority and entry.key < key:", "FADE-2"),
+        M("twin: colour-below scan as nested ifs", LT, "            if entry.priority <= priority and entry.key <= key:\n                stack = self.stack[i:]\n                break", "            if entry.priority <= priority:\n                if entry.key <= key:\n                    stack = self.stack[i:]\n                    break", None),
+        M("twin: colour-below scan with a guard clause", LT, "            if entry.priority <= priority and entry.key <= key:\n                stack = self.stack[i:]\n                break", "            if not (entry.priority <= priority and entry.key <= key):\n                continue\n            stack = self.stack[i:]\n            break", None),
         M("twin: colour-below comparisons mirrored", LT, "            if entry.priority <= priority and entry.key <= key:", "            if priority >= entry.priority and key >= entry.key:", None),
         M("fade start colour of another priority", LT, "            color_below = self.get_color_below(priority, key)", "            color_below = self.get_color_below(0, key)", "FADE-2"),
         M("twin: ratio on one line", LT, "            ratio = ((target_time - color_settings.start_time) /\n                     (color_settings.dest_time - color_settings.start_time))", "            ratio = (target_time - color_settings.start_time) / (color_settings.dest_time - color_settings.start_time)", None),
